@@ -930,3 +930,38 @@ Proof.
     + cbn [fst]. rewrite HfB3, HfB2, HfB1 by congruence. exact Ht9.
     + intros r H1 H2 H3 H4 H5. rewrite HfB3, HfB2, HfB1 by assumption. now apply Hfr9.
 Qed.
+
+(* ---------- one closed instance of the whole statement (not a proof of C08) ----------
+   main(n) { lit x <- 2; y <- n * x; let nil = Nil; let l = Cons(y, nil);
+             switch l { Nil => exit n, Cons(h, t) => r <- h + x; exit r } }
+   compiled by the model and run on the ISA semantics gives what the linear machine gives. *)
+Definition ex_list : ident := ("List", 0%N).
+Definition ex_prog : prog :=
+  let v (s : string) (n : N) : ident := (s, n) in
+  let n := v "n" 1%N in let x := v "x" 2%N in let y := v "y" 3%N in let nil := v "nil" 4%N in
+  let l := v "l" 5%N in let hd := v "h" 6%N in let tl := v "t" 7%N in let r := v "r" 8%N in
+  let tyl := Decl ex_list in
+  {| pdefs := [ {| dname := ("main", 0%N); dctx := [mkb n Ext I64];
+                   dbody :=
+                     Literal 2 x (Op n Prod x y
+                       (Let nil tyl ("Nil", 0%N) []
+                         (Let l tyl ("Cons", 0%N) [mkb y Ext I64; mkb nil Prd tyl]
+                           (Switch l tyl
+                              [ (("Nil", 0%N), [], Exit n);
+                                (("Cons", 0%N), [mkb hd Ext I64; mkb tl Prd tyl], Op hd Sum x r (Exit r)) ])))) |} ];
+     ptypes := [ {| tname := ex_list;
+                    txtors := [ {| xname := ("Nil", 0%N); xargs := [] |};
+                                {| xname := ("Cons", 0%N); xargs := [mkb ("x", 0%N) Ext I64; mkb ("xs", 0%N) Prd tyl] |} ] |} ];
+     pmax := 8%N |}.
+
+Theorem rv_end_to_end_example :
+  exists cs n lc',
+    rv_compile ex_prog 0%N = Ok (cs, n, lc') /\
+    (forall a, In a [0; 5; -7; 4611686018427387904] ->
+       fst (run_rv 10 1000 cs [a]) = run_linear 100 ex_prog [a] /\
+       run_linear 100 ex_prog [a] = ([], OExit (wrap (wrap (a * 2) + 2)))).
+Proof.
+  do 3 eexists. split; [vm_compute; reflexivity|].
+  intros a Ha. cbn [In] in Ha.
+  repeat (destruct Ha as [<-|Ha]; [split; vm_compute; reflexivity|]). contradiction.
+Qed.
